@@ -43,6 +43,10 @@ func (s *scEnds) Configure(w *World) {
 	if t.Draw(3, nil) == 0 {
 		c.W.ReplyErr = 3 // failing re-opens
 	}
+	if t.Draw(4, nil) == 0 {
+		// the goroutine that waits for the session's finish token is pre-empted right after it received one
+		c.YieldSites = map[string]bool{"stream.wait.close-token": true, "stream.wait.end-token": true}
+	}
 	s.maxEnds = 2 + t.Draw(3*c.NVb, nil)
 	c.QuiesceBudget = 40 * time.Second
 	c.AdvEventMax = 2 * time.Second
@@ -82,7 +86,13 @@ func (s *scEnds) ReplyWeight(w *World, q *Req) (int, bool) { return 0, false }
 
 func (s *scEnds) Actions(w *World) []Action {
 	var acts []Action
-	if !w.ready1() || s.endsDone >= s.maxEnds {
+	opening := false
+	for _, m := range w.members {
+		if m.started && !m.ready && !m.crashed && m.phase == "opening" {
+			opening = true // Open() is still requesting streams: an already open one may end meanwhile
+		}
+	}
+	if !(w.ready1() || opening) || s.endsDone >= s.maxEnds {
 		return nil
 	}
 	w.mu.Lock()
@@ -95,7 +105,13 @@ func (s *scEnds) Actions(w *World) []Action {
 		}
 		for _, es := range endStatuses {
 			es := es
+			if opening && !w.ready1() && (es.name == "ok" || es.name == "closed" || es.name == "filter-empty" || es.name == "unknown") {
+				continue // during Open() only the re-openable causes are injected
+			}
 			acts = append(acts, Action{ID: fmt.Sprintf("end|%s|%s", es.name, st.sid), W: w.cfg.W.EndStream, Do: func() {
+				if !w.ready1() {
+					w.probe("end-during-open")
+				}
 				s.endsDone++
 				w.fault("end:"+es.name, st.sid)
 				w.mu.Lock()
